@@ -825,12 +825,19 @@ impl<'a> StrictReader<'a> {
         // ---- merge newest-first and verify every in-use entry of every section
         let mut referenced_offsets: BTreeSet<usize> = BTreeSet::new();
         let mut containers: BTreeSet<u32> = BTreeSet::new();
-        // Size of a section: one greater than the highest object number defined in the file up to and including
-        // that revision, i.e. by this section and all sections reachable through Prev (ISO 32000-1 Table 15)
+        // Size of a section: greater than every object number that is in use in the file as of that revision, i.e.
+        // in the table formed by this section and all sections reachable through Prev, newer entries winning
+        // (ISO 32000-1 Table 15). Numbers that a revision has freed are not held against a smaller Size.
         for (k, s) in sections.iter().enumerate() {
-            if let Some(n) = sections[k..].iter().flat_map(|o| o.entries.iter().filter(|(_, e)| !matches!(e, Entry::Free)).map(|(n, _)| *n)).max() {
+            let mut view: BTreeMap<u32, &Entry> = BTreeMap::new();
+            for o in &sections[k..] {
+                for (n, e) in &o.entries {
+                    view.entry(*n).or_insert(e);
+                }
+            }
+            if let Some(n) = view.iter().filter(|(_, e)| !matches!(e, Entry::Free)).map(|(n, _)| *n).max() {
                 if n >= s.size {
-                    return Err(format!("Size {} of the section at byte {} does not exceed object number {} defined by it or an earlier revision", s.size, s.offset, n));
+                    return Err(format!("Size {} of the section at byte {} does not exceed object number {} in use as of that revision", s.size, s.offset, n));
                 }
             }
         }
